@@ -87,6 +87,38 @@ def run(R):
         R.violation("C17.once", "print|per-row",
                     "println count per result row is %s on the normal paths (must be exactly 1) and %s+%s on the CSV first-line path (must be 0+2): "
                     "a record is dropped or duplicated on some path" % (r1, r_pre, r_post), [f.loc(header)])
+    # the `lone input column prints just the line` case: the println that prints a single value needs all three guards
+    R.rule("C17.lone-input", "only a result whose single column is named `input`, in text format, is printed as the bare line")
+    eqs = [c for c in f.calls if re.search(r"String as core::cmp::PartialEq<&str>>::eq$|PartialEq<&B> for &A>::eq$|PartialEq<str>>::eq$", short(c.name))]
+    special = None
+    for c in eqs:
+        g2 = PR.bool_guard(f, c)
+        if g2:
+            inside = [b for b in inloop if PR.dominated_by_edge(f, b, g2[0], g2[1])]
+            if inside:
+                special = (c, g2, inside)
+    if special is None:
+        R.violation("C17.lone-input", "print|no-special-case", "the `input`-only special case is gone or unrecognised", [f.loc()])
+    else:
+        c, g2, inside = special
+        conds = set()
+        for b in inside:
+            for gsw, lab, tgt in F.guards_dominating(f, b):
+                info = F.switch_info(f, gsw)
+                if info and info[0] == "bool":
+                    pos, os_ = F.bool_edge_polarity(f, gsw, lab)
+                    for o in os_:
+                        if o.kind == "binop" and o.extra == "Eq" and pos and 1 in (o.place["l"].get("int"), o.place["r"].get("int")):
+                            conds.add("len==1")
+                        if o.kind == "call" and pos and "OutputFormat as core::cmp::PartialEq>::eq" in short(o.call.name):
+                            conds.add("text-format")
+                        if o.kind == "call" and pos and o.call is c:
+                            conds.add("named-input")
+        if conds >= {"len==1", "text-format", "named-input"}:
+            R.ok("C17.lone-input", "print", "bare line only under columns.len() == 1 && columns[0] == \"input\" && format == Text", c.loc())
+        else:
+            R.violation("C17.lone-input", "print|guards", "the bare-line output is guarded only by %s (needs len==1, named-input, text-format): "
+                                                          "a multi-column result would lose its other columns" % sorted(conds), [c.loc()])
     # after the loop
     after = [b for b in pl if b not in body]
     none_t = [b for b in g[2]][0] if g[2] else None
